@@ -519,6 +519,10 @@ func matchFilter(filter Filter, value interface{}) (bool, interface{}, error) {
 				return true, value, nil
 			}
 		}
+		// none of the elements matches the filter, so only a filter on the array itself can still match
+		if filter.Type != "array" {
+			return false, nil, nil
+		}
 	default:
 		// object not supported for now
 		return false, nil, ErrUnsupportedFilter
